@@ -54,4 +54,64 @@ ENTRIES.update({
           "differs between the two runs only after a non-compliant singular candidate); no theorem yet. Trusted base as for C01.",
  },
 })
+ENTRIES.update({
+ "C04": {
+  "text": "[R] proofs (Props/C04): normalize_near shifts by whole turns and returns the representative nearest to the previous angle for "
+          "|now - prev| <= 5pi (tight), hence every returned angle is within pi of the previous one for previous in [-2pi,2pi]^6 "
+          "(inverseContinuing_nearest, both dof paths and recovered singular candidates); sort_by_closeness yields a permutation in "
+          "non-decreasing documented cost in each of the three weight modes; the returned list of inverse_continuing / _5dof is sorted; "
+          "every solution of plain inverse is still returned (modulo the normalisation), with or without limits; if the previous joints "
+          "are among the raw solutions (completeness of the closed form, C02) they are the head of the result. Runs compare hook-level "
+          "helpers exactly and the entry points at 1e-9, and check nearest/sorted/superset/previous-first/trajectory tracking on the output.",
+  "note": "'previous comes back first' is proved conditionally on the closed form reproducing the previous joints (hypothesis hsol), "
+          "which is C02's completeness; unconditionally it is decided by the predicates C04.prev_first and C04.track on sampled runs "
+          "(4k trajectory steps quick). Trusted base as for C01.",
+ },
+})
+ENTRIES.update({
+ "C02": {
+  "text": "[R] proofs (Props/C02) of the closure clause: the forward map is invariant under the wrist flip (theta4+pi, -theta5, theta6-pi) and "
+          "under whole turns; sign/offset maps are mutually inverse for signs +-1; the eight raw candidates are four plus their flips; if a "
+          "candidate passes the forward cross-check so does its twin; hence for every answer of inverse_intern (and of inverse without "
+          "limits) the wrist-flipped twin is among the answers (modulo 2pi) with the same pose. Completeness (originating joints among the "
+          "answers), absence of duplicates and equal answer-set sizes are decided on every run by predicates on the implementation's "
+          "output at oracle-checked non-singular configurations; the model's Float reading is compared with inverse and inverse_intern.",
+  "note": "PARTIAL proof: completeness, no-duplicates and same-size are sampled (3000 configurations quick), not theorems. Trusted: Lean "
+          "kernel + 3 standard axioms; model tied by the differential run; rounding (an analytic branch lost to a NaN one ulp beyond a "
+          "domain edge is visible only to the run).",
+ },
+ "C05": {
+  "text": "[R] proofs (Props/C05): the code's band test on the sign/offset-corrected J5 holds iff some multiple of pi is within the "
+          "threshold (two-sided, every multiple); the threshold regenerated from the source is within 7e-21 of 0.01 degree; the cross "
+          "product of the joint-4 and joint-6 axes of the model's own link chain has norm |sin theta5|, so 'reported singular' <=> "
+          "'axes collinear within the band' (singular_iff_axes); the recovered candidate moves J4 and J6 by the same amount and keeps "
+          "the arm joints, and in the theta5=0 branch preserves the sign-corrected J4+J6 modulo 2pi. Runs compare hook helpers and "
+          "kinematic_singularity (through wrappers, with J5 offsets/negative sign) exactly and check first-answer = previous and "
+          "equal J4/J6 shift at exactly singular poses under the oracle-computed premise of the property.",
+  "note": "'first continuation answer equals the previous joints' is decided by the sampled predicate C05.first_eq_prev (premise: "
+          "sensitivity to the 0.125 um shift small enough and a single singular arm branch, computed by the driver's oracle); no theorem "
+          "(it depends on IK completeness and on f64 rounding at cos theta5 = 1). Trusted base as for C01.",
+ },
+})
+ENTRIES.update({
+ "C09": {
+  "text": "[R]/[G] proofs (Props/C09): for every stack of tool/base/frame with unit quaternions, forward = base * robot * tool (induction over "
+          "the stack, associativity of rigid motions); pose round trips; an answer whose core forward equals (or is the same rigid motion "
+          "as) the local pose maps back through the stack's forward onto the requested pose, and conversely; all 24 delegation equations; "
+          "stacks return exactly the core's answer lists for the local pose, so ordering and J6 pass-through survive; links unchanged by a "
+          "tool, pre-multiplied by a base, last link = forward (same rigid motion) for base/frame stacks; LinearAxis/Gantry = base * "
+          "translate * robot, invalid axis = panic (modelled as none). Runs enumerate the delegation matrix exhaustively over wrapper "
+          "orders and compare every entry point with the model; answers are checked against the independent chain-FK through the stack.",
+  "note": "Rounding inside the isometry products is sampled (agreement at 1e-9). The amplification of the 1 urad tolerance by a tool lever "
+          "is allowed for in the predicate (slack aTol * lever). Trusted base as for C01.",
+ },
+ "C16": {
+  "text": "[G]/[R] proofs (Props/C16): forward and link poses of the wrapper are the inner robot's at the un-coupled vector; couple and "
+          "un-couple are mutually inverse for driven and coupled joints in different slots (6x6 case split; indices >= 5 address joint 6), "
+          "counter-examples kept for equal slots; every answer of every entry point is the coupled image of an inner answer and maps back "
+          "through the wrapper's forward onto whatever the inner answer maps to; two stacked couplings compose in both directions. Runs "
+          "cover all 30 index pairs, scalings in [-2,2] and nestings with tool/base, and check answers against the chain-FK of the stack.",
+  "note": "Trusted base as for C01; the arithmetic of the coupling (one multiply-add) is compared at 1e-9.",
+ },
+})
 NOT_APPLICABLE = {}
